@@ -50,4 +50,31 @@ def cliRemove (a : Arena) (tips : List String) : QR Arena := do
   | .err k => .err k
   | _ => .err "CompressFailed"
 
+/-! ### two further requests of the line protocol (compositions of the library model) -/
+
+/-- `ar.setlen x v`: a branch length overwritten in place through the public setters, both records —
+    `tree.get_mut(x).set_parent(p, Some(v)); tree.get_mut(p).set_child_edge(x, Some(v))` (what `collapse` does for one node);
+    refused for a removed or unknown id and for a node without a parent -/
+def setLenOp (a : Arena) (x : Nat) (v : Int) : Arena × Out :=
+  if isLive a x then
+    match (nd a x).parent with
+    | some p =>
+      let a1 := a.setIfInBounds x { nd a x with pedge := some v }
+      (a1.setIfInBounds p (setCedge (nd a1 p) x (some v)), .ok none)
+    | none => (a, .err "root")
+  else (a, .err "NodeNotFound")
+
+/-- payload edit: the comment of slot `i` -/
+def setComment (a : Arena) (i : Nat) (c : Option String) : Arena :=
+  a.setIfInBounds i { nd a i with comment := c }
+
+/-- `ar.add_copy src p e`: `tree.add_child(tree.get(src)?.clone(), p, e)` (repaired: only the payload of the copied node — its
+    name and comment — enters the tree; its links are dropped): a fresh child of `p` carrying the payload of `src` -/
+def addCopy (a : Arena) (src p : Nat) (e : Option Int) : Arena × Out :=
+  if isLive a src then
+    match addChildNamed a p e (nd a src).name with
+    | (a', .ok (some id)) => (setComment a' id (nd a src).comment, .ok (some id))
+    | r => r
+  else (a, .err "NodeNotFound")
+
 end AR
